@@ -123,6 +123,7 @@ func (m *muxer) run() {
 	for _, sx := range m.sessionsBySecret {
 		sx.close2(fmt.Errorf("muxer destroyed"))
 	}
+	m.sessionsBySecret = make(map[uuid.UUID]*session)
 
 	if m.cdnSession != nil {
 		m.cdnSession.close2(fmt.Errorf("muxer destroyed"))
@@ -435,6 +436,24 @@ func (m *muxer) findSessionByUUID(uuid uuid.UUID) *session {
 		}
 	}
 	return nil
+}
+
+func (m *muxer) removeSession(sx *session, err error) {
+	m.mutex.Lock()
+	defer m.mutex.Unlock()
+
+	switch {
+	case m.cdnSession == sx:
+		m.cdnSession = nil
+
+	case m.sessionsBySecret[sx.secret] == sx:
+		delete(m.sessionsBySecret, sx.secret)
+
+	default: // already closed by the muxer
+		return
+	}
+
+	sx.close2(err)
 }
 
 func (m *muxer) apiSessionsGet(uuid uuid.UUID) (*defs.APIHLSSession, bool) {
